@@ -134,6 +134,11 @@ def run(ctx):
             src = hirq.render(flds.get("source_files"))
             ext = hirq.strip(flds.get("extracted_files"))
             skp = hirq.strip(flds.get("skipped_files"))
+            if skp.get("k") == "path" and skp["res"].get("local") in lets and lets[skp["res"]["local"]] is not None:
+                skp = hirq.strip(lets[skp["res"]["local"]])
+            src_n = hirq.strip(flds.get("source_files"))
+            if src_n.get("k") == "path" and src_n["res"].get("local") in lets and lets[src_n["res"]["local"]] is not None:
+                src = hirq.render(lets[src_n["res"]["local"]])
             if "file_count" not in src:
                 probs.append("source_files = `%s`" % src)
             extr = hirq.render(ext)
